@@ -235,7 +235,36 @@ func VerifC14Meta() {
 		}
 		msgs = append(msgs, m)
 	}
+	// concatenation never writes into its input chunks (handlers and the graph may hold the same chunk pointers)
+	type usageSnap struct {
+		has     bool
+		p, c, t int
+		fin     string
+	}
+	var before []usageSnap
+	for _, m := range msgs {
+		sn := usageSnap{}
+		if m.ResponseMeta != nil {
+			sn.fin = m.ResponseMeta.FinishReason
+			if m.ResponseMeta.Usage != nil {
+				sn.has = true
+				sn.p, sn.c, sn.t = m.ResponseMeta.Usage.PromptTokens, m.ResponseMeta.Usage.CompletionTokens, m.ResponseMeta.Usage.TotalTokens
+			}
+		}
+		before = append(before, sn)
+	}
 	c14Rechunk(msgs, "response meta")
+	for i, m := range msgs {
+		sn := before[i]
+		if m.ResponseMeta == nil {
+			continue
+		}
+		vassert(m.ResponseMeta.FinishReason == sn.fin, "concatenation leaves the finish reason of its input chunks alone")
+		if sn.has {
+			u := m.ResponseMeta.Usage
+			vassert(u != nil && u.PromptTokens == sn.p && u.CompletionTokens == sn.c && u.TotalTokens == sn.t, "concatenation leaves the token usage of its input chunks alone")
+		}
+	}
 }
 
 // H3b: log probabilities are appended in order; concatenation never modifies its input chunks
